@@ -145,7 +145,7 @@ inline const std::vector<Ep>& table() {
       {"finddelay/gccphat", [](Rd& r, bool* a) { int n = some_len(r, 1, 200); auto x = mk_real(r, n); auto y = mk_real(r, rel_len(r, n, a, 1)); if (r.coin()) use(double(finddelay(x, y))); else { auto g = gccphat(x, y, r.range(1, 48000)); use(g.tau); use(g.corr); } }},
       {"gccphat multi-channel", [](Rd& r, bool* a) { int n = some_len(r, 1, 100); std::vector<arr_real> ch; int k = r.range(0, 3); for (int i = 0; i < k; ++i) ch.push_back(mk_real(r, rel_len(r, n, a, 1))); auto g = gccphat(ch, mk_real(r, n), 8000); use(g.tau); }},
       {"finddelay cmplx/xcorr", [](Rd& r, bool*) { auto x = mk_cmplx(r, some_len(r, 1, 100)); auto y = mk_cmplx(r, some_len(r, 1, 100)); use(double(finddelay(x, y))); use(xcorr(x, y)); use(xcorr(x)); use(xcorr(mk_real(r, some_len(r, 1, 100)), mk_real(r, some_len(r, 1, 100)))); use(xcorr(mk_real(r, some_len(r, 1, 50)))); }},
-      {"primes helpers", [](Rd& r, bool*) { uint32_t n = uint32_t(r.range(0, 65535)) * (r.coin() ? 1u : 65537u) + uint32_t(r.range(0, 255)); use(double(isprime(n))); use(factor(n)); if (n <= 4294967291u) use(double(nextprime(n))); use(primes(n % 100000u)); int m = int(n & 0x7FFFFFFF); if (m > 0) { use(double(nextpow2(m))); use(double(ispow2(m))); } }},
+      {"primes helpers", [](Rd& r, bool*) { uint32_t n = uint32_t(r.range(0, 65535)) * (r.coin() ? 1u : 65537u) + uint32_t(r.range(0, 255)); if (r.range(0, 2) == 0) n = 0xFFFFFFFFu - uint32_t(r.range(0, 299));   /* top of the 32-bit range: the trial-division bound is near 2^16 */ use(double(isprime(n))); use(factor(n)); if (n <= 4294967291u) use(double(nextprime(n))); use(primes(n % 100000u)); int m = int(n & 0x7FFFFFFF); if (m > 0) { use(double(nextpow2(m))); use(double(ispow2(m))); } }},
       {"random", [](Rd& r, bool*) { rng(r.range(0, 1000)); use(randn(r.range(0, 50))); use(rand(r.range(0, 50))); use(randi(r.range(1, 100), r.range(0, 20))); int lo = r.range(-50, 50); use(randi({lo, lo + r.range(0, 30)}, r.range(0, 20))); use(rand({-1.0, 2.0}, r.range(0, 9))); use(dsplib::randn() + dsplib::rand() + dsplib::randi(5)); use(awgn(mk_real(r, some_len(r, 1, 64)), double(r.range(-10, 80)))); use(awgn(mk_cmplx(r, some_len(r, 1, 64)), double(r.range(-10, 80)))); }},
       // ---------------------------------------------------------------- transforms
       {"fft(cx[,n])", [](Rd& r, bool* a) { int n = some_len(r, 1, 300); auto x = mk_cmplx(r, n); if (r.coin()) use(fft(x)); else use(fft(x, rel_len(r, n, a, 1))); }},
